@@ -37,7 +37,7 @@ class Job:
     def __init__(self, name, shim, contract, harness, enforce, replace=(), defines=(), shim_defines=(),
                  unwind=None, unwindset=(), loop_contracts=False, backend='sat', timeout=300, label='complete',
                  functions=(), tier='quick', cbmc_flags=(), clause=None, what='', known=(), no_canary=False,
-                 extra_sources=(), object_bits=None, ignore=None, ignore_why='', resolve=None, replace_calls=(), witness_defines=(), include_dirs=(), resolve_types=None, mode='dfcc'):
+                 extra_sources=(), object_bits=None, ignore=None, ignore_why='', resolve=None, replace_calls=(), witness_defines=(), include_dirs=(), resolve_types=None, mode='dfcc', no_replay=False):
         self.name = name; self.shim = shim; self.contract = contract; self.harness = harness
         self.enforce = list(enforce) if isinstance(enforce, (list, tuple)) else [enforce]
         self.replace = list(replace); self.defines = list(defines); self.shim_defines = list(shim_defines)
@@ -47,7 +47,7 @@ class Job:
         self.what = what; self.known = list(known); self.no_canary = no_canary
         self.extra_sources = list(extra_sources); self.object_bits = object_bits
         self.ignore = ignore; self.ignore_why = ignore_why; self.unreachable = 0; self.ignored = []
-        self.resolve = dict(resolve or {}); self.replace_calls = list(replace_calls); self.witness_defines = list(witness_defines); self.include_dirs = list(include_dirs); self.resolve_types = dict(resolve_types or {}); self.mode = mode
+        self.resolve = dict(resolve or {}); self.replace_calls = list(replace_calls); self.witness_defines = list(witness_defines); self.include_dirs = list(include_dirs); self.resolve_types = dict(resolve_types or {}); self.mode = mode; self.no_replay = no_replay
         # result fields
         self.status = None; self.obligations = 0; self.discharged = 0; self.failed = []; self.solver_s = 0.0
         self.wall_s = 0.0; self.detail = ''; self.canary_ok = None; self.sample = None
@@ -378,6 +378,8 @@ class Runner:
                'verifier_output': ['%s: %s: %s' % (r['property'], r.get('description'), r['status']) for r in job.failed],
                'checker_cmd': getattr(job, '_cmd', ''), 'inputs': inputs}
         json.dump(rep, open(rpath, 'w'), indent=1)
+        if job.no_replay:
+            return rpath, None, 'no native replay for this job (blocking primitives are modelled, not executed)'
         if not inputs and not job_has_no_inputs(job):
             return rpath, None, 'verifier produced no input assignment'
         rc, text = native_replay(rep, os.path.join(self.bdir, 'native-' + re.sub(r'[^A-Za-z0-9_.-]', '_', job.name)))
@@ -434,7 +436,7 @@ def native_replay(rep, ndir):
     obj_c = os.path.join(ndir, 'contract.o'); obj_s = os.path.join(ndir, 'shim.o'); obj_r = os.path.join(ndir, 'rt.o')
     exe = os.path.join(ndir, 'replay')
     for _ in range(8):
-        rc, o, e = sh(['gcc', '-std=gnu11', '-g', '-O0', '-fexceptions', '-w', '-DNATIVE', '-DHARNESS=' + rep['harness'], '-I', ndir, '-I', TOOLS, '-I', cdir] + defs + san +
+        rc, o, e = sh(['gcc', '-std=gnu11', '-g', '-O0', '-fexceptions', '-w', '-DNATIVE', '-DHARNESS=' + rep['harness'], '-I', ndir, '-I', TOOLS, '-I', cdir] + [x for d_ in rep.get('include_dirs', []) for x in ('-I', d_)] + defs + san +
                       ['-c', os.path.join(cdir, rep['contract']), '-o', obj_c], timeout=600, mem=False)
         missing = set(re.findall(r'RP_INIT_(in_[A-Za-z0-9_]+)[^A-Za-z0-9_]+undeclared', e))
         if rc == 0 or not (missing - names): break
